@@ -121,7 +121,10 @@ func (g *treeGen) tree(depth int) *node {
 		return g.leaf(leafTypes[g.r.Intn(len(leafTypes))])
 	case k < 6:
 		n := &node{kind: 'G', scope: g.scope("nnnnbqs")}
-		w := g.r.Range(0, 4)
+		w := g.r.Range(1, 4)
+		if g.r.Chance(1, 12) {
+			w = 0
+		}
 		for i := 0; i < w; i++ {
 			n.kids = append(n.kids, g.tree(depth-1))
 		}
